@@ -22,54 +22,65 @@ import (
 
 func TestMain(m *testing.M) { ev.Main(m) }
 
+// setting creates renderer objects; mk(cells) returns a render function bound to ONE renderer
+// object, so that a test can reuse the object for several shapes (as a program that renders
+// several parts with one renderer does).
 type setting struct {
 	name string
-	run  func(s sdf.SDF3, cells int) []*sdf.Triangle3
+	mk   func(cells int) func(s sdf.SDF3) []*sdf.Triangle3
 }
 
-func runV1(rcond float64, lock bool) func(s sdf.SDF3, cells int) []*sdf.Triangle3 {
-	return func(s sdf.SDF3, cells int) []*sdf.Triangle3 {
-		ch := make(chan *sdf.Triangle3)
-		var out []*sdf.Triangle3
-		var wg sync.WaitGroup
-		wg.Add(1)
-		go func() {
-			defer wg.Done()
-			for t := range ch {
-				out = append(out, t)
-			}
-		}()
-		dc.NewDualContouringV1(-1, rcond, lock).Render(s, cells, ch)
-		close(ch)
-		wg.Wait()
-		return out
+func (st setting) run(s sdf.SDF3, cells int) []*sdf.Triangle3 { return st.mk(cells)(s) }
+
+func mkV1(rcond float64, lock bool) func(cells int) func(s sdf.SDF3) []*sdf.Triangle3 {
+	return func(cells int) func(s sdf.SDF3) []*sdf.Triangle3 {
+		r := dc.NewDualContouringV1(-1, rcond, lock)
+		return func(s sdf.SDF3) []*sdf.Triangle3 {
+			ch := make(chan *sdf.Triangle3)
+			var out []*sdf.Triangle3
+			var wg sync.WaitGroup
+			wg.Add(1)
+			go func() {
+				defer wg.Done()
+				for t := range ch {
+					out = append(out, t)
+				}
+			}()
+			r.Render(s, cells, ch)
+			close(ch)
+			wg.Wait()
+			return out
+		}
 	}
 }
 
-func runV2(mk func(cells int) *dc.DualContouringV2) func(s sdf.SDF3, cells int) []*sdf.Triangle3 {
-	return func(s sdf.SDF3, cells int) []*sdf.Triangle3 {
-		ch := make(chan []*sdf.Triangle3)
-		var out []*sdf.Triangle3
-		var wg sync.WaitGroup
-		wg.Add(1)
-		go func() {
-			defer wg.Done()
-			for ts := range ch {
-				out = append(out, ts...)
-			}
-		}()
-		mk(cells).Render(s, ch)
-		close(ch)
-		wg.Wait()
-		return out
+func mkV2(mk func(cells int) *dc.DualContouringV2) func(cells int) func(s sdf.SDF3) []*sdf.Triangle3 {
+	return func(cells int) func(s sdf.SDF3) []*sdf.Triangle3 {
+		r := mk(cells)
+		return func(s sdf.SDF3) []*sdf.Triangle3 {
+			ch := make(chan []*sdf.Triangle3)
+			var out []*sdf.Triangle3
+			var wg sync.WaitGroup
+			wg.Add(1)
+			go func() {
+				defer wg.Done()
+				for ts := range ch {
+					out = append(out, ts...)
+				}
+			}()
+			r.Render(s, ch)
+			close(ch)
+			wg.Wait()
+			return out
+		}
 	}
 }
 
 var settings = []setting{
-	{"V1(rcond=default,lock=true)", runV1(0, true)},
-	{"V1(rcond=0.1,lock=true)", runV1(0.1, true)},
-	{"V2(default)", runV2(func(c int) *dc.DualContouringV2 { return dc.NewDualContouringDefault(c) })},
-	{"V2(faraway=0.4,push=0.05)", runV2(func(c int) *dc.DualContouringV2 { return dc.NewDualContouringV2(0.4, 0.05, 0, 1, 1e-4, 1000, c) })},
+	{"V1(rcond=default,lock=true)", mkV1(0, true)},
+	{"V1(rcond=0.1,lock=true)", mkV1(0.1, true)},
+	{"V2(default)", mkV2(func(c int) *dc.DualContouringV2 { return dc.NewDualContouringDefault(c) })},
+	{"V2(faraway=0.4,push=0.05)", mkV2(func(c int) *dc.DualContouringV2 { return dc.NewDualContouringV2(0.4, 0.05, 0, 1, 1e-4, 1000, c) })},
 }
 
 func sameSeq(a, b []*sdf.Triangle3) bool {
@@ -141,7 +152,15 @@ func TestDualContouring(t *testing.T) {
 			rec.Case(false, "", "dc:unresolved")
 			return
 		}
-		ts := st.run(rs, cells)
+		// one renderer object; with some probability it has already rendered another shape in the SAME box
+		rr := st.mk(cells)
+		reused := rapid.IntRange(0, 2).Draw(t, "reuse-renderer") == 0
+		if reused {
+			dr := nb.Size().MinComponent() * g.F(0.15, 0.35).Draw(t, "decoy-radius")
+			sp, _ := sdf.Sphere3D(dr)
+			rr(lat.Rebox3{S: sdf.Transform3D(sp, sdf.Translate3d(nb.Center())), BB: nb})
+		}
+		ts := rr(rs)
 		fail := func(key, msg string) {
 			rec.Violation(t, "DualContouring:"+key, "%s, %d cells, [%s] %s in box %v: %s", st.name, cells, kind, n, nb, msg)
 		}
@@ -183,9 +202,13 @@ func TestDualContouring(t *testing.T) {
 				}
 			}
 		}
-		if ts2 := st.run(rs, cells); !sameSeq(ts, ts2) {
-			fail("not-repeatable", fmt.Sprintf("second run in the same process produced a different triangle sequence (%d vs %d triangles)", len(ts), len(ts2)))
+		if ts2 := rr(rs); !sameSeq(ts, ts2) {
+			fail("not-repeatable", fmt.Sprintf("second run with the same renderer object produced a different triangle sequence (%d vs %d triangles)", len(ts), len(ts2)))
 		}
+		if ts3 := st.run(rs, cells); !sameSeq(ts, ts3) {
+			fail("not-repeatable", fmt.Sprintf("a fresh renderer object produced a different triangle sequence (%d vs %d triangles; the first renderer had rendered another shape before: %v)", len(ts), len(ts3), reused))
+		}
+		rec.Add(fmt.Sprintf("dc:renderer-reused=%v", reused), 1)
 		rec.Case(len(ts) >= 20, ev.Key(st.name, n.String(), cells, m), "dc:"+st.name, "dc:"+kind)
 		rec.Add("dc:triangles", int64(len(ts)))
 		rec.Sample("dc:"+st.name, map[string]any{"setting": st.name, "scene": n.String(), "cells": cells, "triangles": len(ts), "volume": r.Volume, "worst_vertex_distance_over_diag": worst / diag})
